@@ -561,28 +561,56 @@ func (w *w2) doMultiCommit(m *w2member, topicIdx, n int, nullMask int64) {
 	})
 }
 
-func (w *w2) doOffsetFetch(m *w2member, group, topic string, part int32) *ev {
+func (w *w2) doOffsetFetch(m *w2member, group, topic string, part int32, extra int64) *ev {
 	e := w.record(&ev{kind: "ofetch", actor: m.id, group: group, topic: topic, part: part})
 	req := kmsg.NewPtrOffsetFetchRequest()
 	req.Version, req.Group = 5, group
 	t := kmsg.NewOffsetFetchRequestTopic()
 	t.Topic, t.Partitions = topic, []int32{part}
+	if extra > 0 {
+		// the judged partition travels with others in one request (the other partitions of its topic behind
+		// it, and for extra > 1 another topic as well): each entry of the reply must be its own partition's
+		for p := int32(0); p < 3; p++ {
+			if p != part {
+				t.Partitions = append(t.Partitions, p)
+			}
+		}
+		w.sim.Probe("c16.fetch-with-companions")
+	}
 	req.Topics = append(req.Topics, t)
+	if extra > 1 {
+		for _, other := range w2Topics {
+			if other != topic {
+				t2 := kmsg.NewOffsetFetchRequestTopic()
+				t2.Topic, t2.Partitions = other, []int32{0, 1}
+				req.Topics = append(req.Topics, t2)
+				break
+			}
+		}
+	}
 	w.rpc(func(c *GroupCoordinator, ctx context.Context) any {
 		resp, err := c.OffsetFetch(ctx, req)
 		if err != nil {
 			return err
 		}
-		if len(resp.Topics) == 1 && len(resp.Topics[0].Partitions) == 1 {
-			p := resp.Topics[0].Partitions[0]
-			e.code, e.offset = p.ErrorCode, p.Offset
-			if resp.ErrorCode != 0 {
-				e.code = resp.ErrorCode
+		for _, rt := range resp.Topics {
+			if rt.Topic != topic {
+				continue
 			}
-			if p.Metadata != nil {
-				e.meta = *p.Metadata
+			for _, p := range rt.Partitions {
+				if p.Partition != part {
+					continue
+				}
+				e.code, e.offset = p.ErrorCode, p.Offset
+				if resp.ErrorCode != 0 {
+					e.code = resp.ErrorCode
+				}
+				if p.Metadata != nil {
+					e.meta = *p.Metadata
+				}
+				w.reply(e)
+				return resp
 			}
-			w.reply(e)
 		}
 		return resp
 	})
@@ -608,7 +636,7 @@ func (w *w2) memberOp(m *w2member, op simrt.Op) {
 	case "mcommit":
 		w.doMultiCommit(m, int(op.B), int(2+op.C%3), op.D)
 	case "ofetch":
-		w.doOffsetFetch(m, group, w2Topics[int(op.B)%len(w2Topics)], int32(op.C%3))
+		w.doOffsetFetch(m, group, w2Topics[int(op.B)%len(w2Topics)], int32(op.C%3), op.D)
 	case "sleep":
 		simrt.Sleep(time.Duration(op.A) * time.Millisecond)
 	case "cycle":
